@@ -402,6 +402,19 @@ def generate(seed_labels: typing.Tuple, profile: typing.Optional[Profile] = None
                 if "@deprecated" in t.text:
                     m.text = t.text
                 ds.types.append(m)
+        # now and then: namespaces described by a type called "_" (the documented convention of the HTML target: its doc
+        # comment is the description of the namespace)
+        rd = r.sub("nsdoc", ri)
+        if p.docs and p.weird_names and rd.chance(1, 3):
+            for base_ns in rd.sample(ns_pool, min(len(ns_pool), rd.between(1, 2))):
+                g = GenType()
+                g.root, g.ns, g.short, g.major, g.minor = root, list(base_ns), "_", 0, 1
+                if str((g.full_name.lower(), 0)) in used:
+                    continue
+                used.add(str((g.full_name.lower(), 0)))
+                g.text = "# " + rd.choice(DOC_FRAGMENTS) + "\n# (describes this namespace)\n@sealed\n"
+                g.max_bits_hint = 0
+                ds.types.append(g)
         # now and then: a family of names that tie or reorder under "clever" comparisons (natural sort, zero padding,
         # numeric suffixes) plus one type that refers to all of them - ordering by such keys must stay total
         rf = r.sub("family", ri)
@@ -493,6 +506,8 @@ def same_layout_variant(files: typing.Dict[str, str]) -> typing.Optional[typing.
     pat = re.compile(r"(?<![\w.])(" + "|".join(re.escape(k) for k in sorted(ref_of, key=len, reverse=True)) + r")(?![\w.])") if ref_of else None
     if pat is None:
         return None
+    # (the description of a namespace - the doc comment of its "_" type - is edited as well: same names, another text)
+    edited = {rel: "# edited description of the namespace\n" + text for rel, text in files.items() if rel.split("/")[-1].startswith("_.")}
     for rel in sorted(files):
         refs = []
         for m in pat.finditer(files[rel]):
@@ -505,5 +520,10 @@ def same_layout_variant(files: typing.Dict[str, str]) -> typing.Optional[typing.
                     out = dict(files)
                     out[rel] = pat.sub(lambda m, a=a, b=b: a if m.group(1) == b else m.group(1), files[rel])
                     if out[rel] != files[rel]:
+                        out.update(edited)
                         return out
+    if edited:
+        out = dict(files)
+        out.update(edited)
+        return out
     return None
